@@ -190,7 +190,7 @@ CHECKS['C08'] = {
     'explanation': 'unit blk',
 }
 CHECKS['C11'] = {
-    'level': 'proof', 'units': ['blk'],
+    'level': 'proof', 'units': ['blk', 'neg'],
     'kani': [_k('negotiate_never_panics', 'all budgets 0..usize::MAX, overheads, payload sizes, client blocks: returns Ok or Err(code Some), no division by zero / overflow', timeout=900)],
     'technique': 'Verus panic-freedom of the verbatim handler glue (every unwrap, index, arithmetic operation is an obligation) + complete Kani harness for the block-size arithmetic',
     'level_text': 'Proof: intercept_request, intercept_response and the four step functions return normally for every request, reply, state and budget (Verus: no unwrap of None, no overflow, no out-of-range index; Kani: the negotiation arithmetic for every budget from 0); every Err carries a response code unless there is no prepared response to render it into; a Block1 block whose end lies more than 16 KiB beyond the buffer is rejected with the buffer unchanged, and an accepted block grows the buffer by at most 16 KiB plus its payload.',
@@ -199,11 +199,11 @@ CHECKS['C11'] = {
     'explanation': 'unit blk + kani negotiate_never_panics',
 }
 CHECKS['C10'] = {
-    'level': 'proof', 'units': ['blk', 'msz'],
+    'level': 'proof', 'units': ['blk', 'msz', 'neg'],
     'kani': [_k('negotiate_within_budget', 'all client blocks, overheads, payload sizes and every budget M with overhead+28 <= M <= 1280: chosen size is a power of two 16..1024, <= the client size, size + overhead + 12 <= M; the client size is kept (with its block number) when it fits with 32 bytes to spare; unfragmented only if payload + overhead + 12 < M', timeout=900)],
     'technique': 'Kani complete harness for the block-size arithmetic + Verus: overhead measurement against the encoder contract, glue contracts tying the served block / Block1 reply to the negotiation result, lemma bounding the growth of the encoding by the Block option and marker',
     'level_text': 'Proof: (1) Kani, complete over all inputs in the property budget range, proves the arithmetic contract neg_post of negotiate_block_size_if_necessary; (2) Verus proves compute_message_size_hack returns the exact encoded size without payload plus the payload length (msz, against the encoder contract of C04); (3) Verus proves, on the verbatim glue, that the block served by intercept_response and the Block1 value acknowledged by maybe_handle_request_block1 are exactly that negotiation result and that a reply left unfragmented satisfies payload + overhead + 12 < M (blk); (4) lemma: one extra Block option with a value of <= 3 bytes plus the payload marker grow the encoding by <= 12 bytes, so the fragmented reply encodes within overhead + 12 + size <= M (msz: theorem_c10_fragment_fits).',
-    'level_note': _BLK_NOTE + ' The Kani-proved contract and its Verus transcription neg_post are kept in sync by hand (kani/src/negotiate.rs vs units/blk.py). The statement about the client next upload block is the arithmetic one (size + request overhead + 12 <= M).',
+    'level_note': _BLK_NOTE + ' The arithmetic contract neg_post is proved twice on the real function: by Verus on its verbatim body (unit neg, given the BlockValue::new/size contracts) and, as assertions, by the complete Kani harness. The statement about the client next upload block is the arithmetic one (size + request overhead + 12 <= M).',
     'trusted': [T_VERUS, T_R1, T_KANI] + T_BLK,
     'explanation': 'units blk + msz, kani negotiate_within_budget',
 }
